@@ -193,6 +193,25 @@ func opcodeTableRule(c *Ctx, rule string) {
 	decHas := opcodeKeysOfMapLiteral(c, decompPkg, c.decl(decompPkg, "hasOperand"), false)
 	decNames := opcodeKeysOfMapLiteral(c, decompPkg, c.decl(decompPkg, "opcodeToString"), true)
 	jumpSet := opcodeKeysOfMapLiteral(c, compilerPkg, c.decl(compilerPkg, "Compiler.adjustJumpTargets"), false)
+	if len(jumpSet) == 0 {
+		// the table may live in a predicate the walk calls (`isJumpOpcode(op)`): a package function other than the
+		// operand table, taking the opcode and returning bool
+		if adj := c.fn(compilerPkg, "Compiler.adjustJumpTargets"); adj != nil {
+			hasOp := c.fn(compilerPkg, "hasOperand")
+			eachCall(adj, func(call ssa.CallInstruction) {
+				sf := staticFn(call)
+				if sf == nil || sf == hasOp || sf.Pkg == nil || sf.Pkg.Pkg.Path() != modPath+"/"+compilerPkg || sf.Signature.Results().Len() != 1 {
+					return
+				}
+				if bt, ok := sf.Signature.Results().At(0).Type().Underlying().(*types.Basic); !ok || bt.Kind() != types.Bool {
+					return
+				}
+				for k := range opcodeKeysOfMapLiteral(c, compilerPkg, c.declByName(compilerPkg, anchorName(sf)), false) {
+					jumpSet[k] = true
+				}
+			})
+		}
+	}
 	if len(compHas) < 5 || len(decHas) < 5 || len(decNames) < 30 {
 		c.undecided("%s: operand/name tables extracted with %d/%d/%d entries", rule, len(compHas), len(decHas), len(decNames))
 		return
